@@ -361,9 +361,9 @@ func init() {
 				}
 			}
 			return []*engine.Scenario{
-				rewards([]int{1, 0, 2, 3, 1}, 6, 2),
 				mk("c18-genesis", c18Config(), []int{2, 1, 1, 2, 0}, 4, 2, c18ContSmall, reqAll),
 				mk("c18-warmup-flag", warm, []int{1, 0, 0, 1, 0}, 2, 2, c18ContSmall, reqWarm),
+				rewards([]int{1, 0, 2, 3, 1}, 6, 2),
 			}
 		},
 		Assumptions: []string{
